@@ -10,3 +10,11 @@ pub mod test_logps;
 pub use cpu_math::{CpuLogpFunc, CpuMath, CpuMathError};
 pub use math::{LogpError, Math};
 pub(crate) use util::logaddexp;
+
+#[cfg(nuts_rs_verif)]
+pub mod verif_exports {
+    pub use super::util::{
+        axpy, axpy_out, multiply, multiply_inplace, scalar_prods2, scalar_prods3, std_norm_flow,
+        std_norm_grad_flow, std_norm_grad_flow_inplace, vector_dot,
+    };
+}
